@@ -644,8 +644,12 @@ impl ToplevelDefinition {
         env: &TaggingEnvironment,
     ) {
         *tag = tag.as_ref().map(|t| AsnTag {
-            // ITU-T X.680 section 31.2.7 clause c: a tagged open type is always tagged explicitly
-            environment: if matches!(tagged, ASN1Type::Any) {
+            // ITU-T X.680 section 31.2.7 clause c: a tagged open type is always tagged explicitly;
+            // a type field of an information object class (`CLASS.&Type`) denotes an open type
+            environment: if matches!(tagged, ASN1Type::Any)
+                || matches!(tagged, ASN1Type::ObjectClassField(f)
+                    if matches!(f.field_path.last(), Some(information_object::ObjectFieldIdentifier::MultipleValue(_))))
+            {
                 TaggingEnvironment::Explicit
             } else {
                 env + &t.environment
